@@ -276,8 +276,10 @@ fn model(x: &[u8]) -> Option<Vec<(String, u16, Vec<u8>, String)>> {
             Ent::Stripped { index, data } => (index as usize, data),
             Ent::Newc(c) => {
                 let name = String::from_utf8_lossy(&c.name).to_string();
-                let n = name.strip_prefix("./").or(name.strip_prefix('/')).unwrap_or(&name).to_string();
-                (paths.iter().position(|p| p.trim_start_matches('/') == n)?, c.data)
+                // compare component by component: redundant '/' and '.' components do not name another file
+                let comps = |s: &str| s.split('/').filter(|c| !c.is_empty() && *c != ".").map(|c| c.to_string()).collect::<Vec<_>>();
+                let n = comps(&name);
+                (paths.iter().position(|p| comps(p) == n)?, c.data)
             }
         };
         out.push((paths[i].clone(), modes[i], data, links[i].clone()));
@@ -382,6 +384,14 @@ fn benign_specs() -> Vec<BuildSpec> {
             .collect();
         s.files = vec![f, d, deep, ln, dangling, top, tmp, toml, bak];
         s.files.extend(hidden);
+        // destinations that are not in their shortest form
+        for (p, dirmode) in [("/ns/demo//bin/tool.py", false), ("/ns/./demo/lib/x", false), ("/ns/demo/data/", true), ("//ns2/y", false)] {
+            let mut f = FileSpec::new(p, Content::Bytes(if dirmode { vec![] } else { format!("content of {}", p).into_bytes() }));
+            if dirmode {
+                f.mode = ModeSpec::Dir(0o750);
+            }
+            s.files.push(f);
+        }
         // paths that are tails / prefixes of one another, the relative './' spelling, names that differ in case
         for p in ["/opt/app/share/doc/README", "/share/doc/README", "/README", "./.rel/.hidden/x", "/rel/hidden/x", "/q/File", "/q/file", "/lib/x", "/lib-1.0/y", "/lib.d/z"] {
             s.files.push(FileSpec::new(p, Content::Bytes(format!("content of {}", p).into_bytes())));
